@@ -31,6 +31,7 @@ const smtPrelude2 = `(declare-const ABSENTROW Row)
 (declare-fun j.ofstr (Str) JsonV)
 (declare-fun j.ofint (Int) JsonV)
 (declare-fun j.ofbool (Bool) JsonV)
+(declare-fun j.mapid (JsonV) Int)
 (declare-fun j.ofbytes (Bytes) JsonV)
 (declare-fun j.ofmap ((Array Str JsonV)) JsonV)
 (declare-fun j.asmap (JsonV) (Array Str JsonV))
